@@ -152,7 +152,11 @@ func checkC16(e *Env) {
 			case "(*strings.Builder).WriteByte", "(*bytes.Buffer).WriteByte":
 				return true
 			case "builtin:append":
-				return strings.Contains(prov.Of(c.Call.Args[1]), tC)
+				for _, el := range appendedElems(c) {
+					if strings.Contains(prov.Of(el), tC) {
+						return true
+					}
+				}
 			}
 			return false
 		},
@@ -164,6 +168,9 @@ func checkC16(e *Env) {
 			e.R.Undecided("GATE", pkg+"(*parser).parseString:keep-char", e.P.Pos(ps.Pos()), "cannot find where parseString keeps a character")
 		}
 	}
+
+	// optional whitespace is SP / HTAB, at the front only
+	e.requireStore("RESULT", e.fn(pkg+"(*parser).discardLeadingOWS"), "param:p.input", `call:strings.TrimLeft(param:p.input,const:" \t")`, "the input with leading SP/HTAB removed (nothing else is optional whitespace)")
 
 	// (b) writer validation
 	o0 := gate.Outcome{Kind: gate.ErrNil, Idx: 0}
